@@ -236,6 +236,8 @@ func concFinal(w *vfWorld) {
 			hon["bootstrap-otp/"+r.Step.Sess[:1]+r.Step.A]++
 		case "u2fsignresp":
 			hon["u2f-challenge/"+r.Step.Target]++
+		case "webauthn_finish":
+			hon["webauthn-challenge/"+r.Step.Target]++
 		}
 	}
 	for k, n := range hon {
@@ -344,7 +346,7 @@ func (w *vfWorld) effectOf(r *concReq) string {
 var vfOpFamily = map[string]string{"mgmt": "manageToken", "totp_new": "totpGenerateNew", "totp_validate_new": "totpValidateNew",
 	"u2f_regreq": "u2fRegisterRequest", "u2f_regresp": "u2fRegisterResponse", "totp": "TOTPAuth", "newbootstrap": "newBootstrapOTP",
 	"bootstrapotp": "bootstrapOtpAuth", "adduser": "addUser", "deluser": "deleteUser", "u2fsignresp": "u2fSignResponse",
-	"u2fsignreq": "u2fSignRequest", "login": "login", "pushpoll": "vipPollCheck", "vipotp": "vipAuth", "pushstart": "vipPushStart"}
+	"u2fsignreq": "u2fSignRequest", "login": "login", "webauthn_begin": "webauthnAuthBegin", "webauthn_finish": "webauthnAuthFinish", "pushpoll": "vipPollCheck", "vipotp": "vipAuth", "pushstart": "vipPushStart"}
 
 func famOf(st vfStep) string {
 	f := vfOpFamily[st.Op]
@@ -498,6 +500,9 @@ func genConcPlan(r *rand.Rand, tier string) *vfPlan {
 	if chance(r, 0.5) {
 		add(vfStep{Op: "u2fsignreq", Sess: "a1"})
 	}
+	if chance(r, 0.5) {
+		add(vfStep{Op: "webauthn_begin", Sess: pick(r, []string{"a1", "a2", "b1"})})
+	}
 	if chance(r, 0.3) {
 		add(vfStep{Op: "pushstart", Sess: "a1"})
 		add(vfStep{Op: "approve", User: "alice"})
@@ -529,6 +534,9 @@ func genConcPlan(r *rand.Rand, tier string) *vfPlan {
 			{Op: "pushpoll", Sess: sess},
 			{Op: "vipotp", Sess: sess, A: "cur"},
 			{Op: "pushstart", Sess: sess},
+			{Op: "webauthn_begin", Sess: sess},
+			{Op: "webauthn_finish", Sess: sess, Target: tok},
+			{Op: "webauthn_finish", Sess: sess, Target: tok, B: pick(r, []string{"malformed", "garbage"})},
 		}
 	}
 	n := 2
@@ -550,6 +558,11 @@ func genConcPlan(r *rand.Rand, tier string) *vfPlan {
 		// the same hardware-token assertion delivered twice
 		p.Steps = append(p.Steps, vfStep{Op: "u2fsignreq", Sess: "a1"})
 		group = []vfStep{{Op: "u2fsignresp", Sess: "a1", Target: "tok1"}, {Op: "u2fsignresp", Sess: "a2", Target: "tok1", A: "sess:a1"}}
+	case 4:
+		// error paths of the hardware-token login racing other users of the challenge table
+		p.Steps = append(p.Steps, vfStep{Op: "webauthn_begin", Sess: "a1"})
+		group = []vfStep{{Op: "webauthn_finish", Sess: "a1", Target: "tok1", B: pick(r, []string{"malformed", "garbage", ""})},
+			pick(r, []vfStep{{Op: "u2fsignreq", Sess: "b1"}, {Op: "webauthn_begin", Sess: "b1"}, {Op: "webauthn_begin", Sess: "a2"}, {Op: "u2fsignresp", Sess: "b1", Target: "tok3"}, {Op: "webauthn_finish", Sess: "a2", Target: "tok1", A: "sess:a1"}})}
 	case 3:
 		group = []vfStep{{Op: "adduser", User: "newbie"}, {Op: "adduser", User: "newbie"}}
 		if chance(r, 0.5) {
